@@ -149,6 +149,9 @@ def run(ctx, res):
     from ..filecreate import rule_file_create
     res.guard(rule_file_create, prog, res, ("FD-ONCE", "LOCK-FIRST"))
     res.require_min("R-CREATE", 2)
+    from ..filecreate import rule_close_reaches
+    res.guard(rule_close_reaches, prog, res)
+    res.require_min("R-CLOSE-REACHES", 1)
     from ..filecreate import rule_errno_fresh
     res.guard(rule_errno_fresh, prog, res)
     res.require_min("R-ERRNO-FRESH", 6)
